@@ -6,7 +6,9 @@ package jen
 //                                    rendered - and their packages registered - in map iteration order)
 
 import (
+	"bytes"
 	"fmt"
+	"sort"
 	"strings"
 	"testing"
 )
@@ -45,6 +47,56 @@ func TestReplay_DictOrderDependentImports(t *testing.T) {
 				t.Logf("variant:\n%s", s)
 			}
 			n++
+		}
+	}
+}
+
+// Dict.render#inv1.keytext / #inv2.ordered (C16): pairs are ordered by the rendered text of their keys,
+// every pair appears once with its own value, one pair inline and several one per line.
+func TestReplay_DictOrder(t *testing.T) {
+	cases := [][]Code{
+		{Id("x"), Id("x1"), Id("x2")},
+		{Lit(1), Lit(10), Lit(2)},
+		{Id("a"), Id("a").Dot("B"), Id("a").Call()},
+		{Id("Name"), Id("NameSpace"), Id("N")},
+		{Lit("b"), Lit("a"), Lit("a b")},
+		{Id("only")},
+	}
+	for _, keys := range cases {
+		d := Dict{}
+		var texts []string
+		for i, k := range keys {
+			d[k] = Lit(100 + i)
+			var kb bytes.Buffer
+			k.render(NewFile(""), &kb, nil)
+			texts = append(texts, kb.String())
+		}
+		f := NewFile("p")
+		f.NoFormat = true
+		f.Add(Values(d))
+		out := fmt.Sprintf("%#v", f)
+		sorted := append([]string(nil), texts...)
+		sort.Strings(sorted)
+		pos := -1
+		for _, kt := range sorted {
+			val := ""
+			for i, x := range texts {
+				if x == kt {
+					val = fmt.Sprint(100 + i)
+				}
+			}
+			i := strings.Index(out, kt+":"+val)
+			if i < 0 {
+				t.Errorf("FAILING INPUT: Dict with keys %v: pair %s:%s is missing from %q", texts, kt, val, out)
+				continue
+			}
+			if i < pos {
+				t.Errorf("FAILING INPUT: Dict with keys %v: pairs are not in order of their key texts %v in %q", texts, sorted, out)
+			}
+			pos = i
+		}
+		if len(keys) == 1 && strings.Contains(out, "\n{\n") {
+			t.Errorf("FAILING INPUT: a single pair is not rendered inline: %q", out)
 		}
 	}
 }
